@@ -96,6 +96,22 @@ Not reported by the property they were seeded for:
   verbosity, which has no DEBUG row: which format string is shown at which level
   is a value-level table the property does not state.
 
+* `C16-12` - rows of a frame counted as `len // width + 1` in
+  `SectionOutput._get_row_count` (the arithmetic of `C15-1` again, now in the
+  helper that F24 introduced): no rule decides it, but the row-counter rules of
+  C15 identify the counter as "the field incremented by a ceiling", lose that
+  anchor and end in ANALYSIS-ERROR (exit 2) - fail-closed, not a verdict.
+* `C12-12` - the sorted cache moved from the instance to the class body:
+  reported by C17-R6 (a class-level container that is mutated); C12 itself no
+  longer finds "the cache attribute the constructor creates" and fails closed
+  (ANALYSIS-ERROR naming the anchor). C12-R15 is the same rule under C12 but is
+  not reached.
+* `C04-15` - the version listener writes `event.handled(version_requested)`
+  unconditionally, un-handling what an earlier listener handled: reported by
+  C09-R5 (the listener marks the event handled under the version test only). It
+  is not instantiated under C04 because C09 already instantiates a C04 rule
+  (C04-R15) and `Ctx.borrow` must stay acyclic.
+
 `C05-7` (and its re-inventions `C02-13`, `C03-14`: `Config.args_parser` keeps
 the default parser it creates, so all commands and threads of a configuration
 share one parser) was declined until round 5 because a rule against "a getter
